@@ -124,6 +124,7 @@ structure RS where
   pos : Nat := 0
   col : Nat := 0
   colFix : Bool := false     -- does the source under test contain the column/range repair?
+  eofEnd : Option Nat := none -- `some (total bytes of the old tree)` iff it contains the EOF-look-ahead repair
   coldepSeen : Bool := false -- a column-dependent candidate met the gate
   state : Option Nat := none
   startState : Nat := 1
@@ -195,9 +196,9 @@ def RS.gateEvent (s : RS) (L : Lang) (symName : Nat → String) (ev : Verdict) (
       let (stv, known) := match s.state with
         | some st => (st, true)
         | none => (0, false)   -- parse state re-read from the stack after a breakdown: first-leaf test undetermined
-      let v := reuseGate L s.diffs.toList t off s.pos stv extEq ld
-      let v' := reuseGate L live t off s.pos stv extEq ld
-      let inSet := fun (ds : List (Nat × Nat)) => decide (off = s.pos) && extEq && (refusalReasons ds t off ld).contains ev
+      let v := reuseGate L s.diffs.toList t off s.pos stv extEq ld s.eofEnd
+      let v' := reuseGate L live t off s.pos stv extEq ld s.eofEnd
+      let inSet := fun (ds : List (Nat × Nat)) => decide (off = s.pos) && extEq && (refusalReasons ds t off ld s.eofEnd).contains ev
       let s :=
         if v = ev then { s with matched := s.matched + 1 }
         else if inSet s.diffs.toList then { s with matched := s.matched + 1, reordered := s.reordered + 1 }
